@@ -36,7 +36,9 @@
                               [__typename] answered by the gateway itself; [PAbs]: a field resolved per RUNTIME
                               type (interface / union positions): the client's and the source's selections verbatim
                               and one plan tree per concrete object type over the selections flattened at that type
-                              ([gmerge]: the fields of one response key merged), [tv4_static_b]; execution and
+                              ([gmerge]: the fields of one response key merged), [tv4_static_b]; a representation
+                              field may be NESTED ( nk { inner leaves } ): [repr_of_n] / [repr_from_n] / [nkey_ok_b] /
+                              [nkey_consistent] (ProofsNKey*.v), [tv5_static_b] with the nested key declarations; execution and
                               validator (ProofsPlan3*.v); [fuel_bound] fuel that always suffices without spreads
    Examples: Examples.v, ExamplesWf.v, ExamplesList.v, ExamplesAbstract.v, ExamplesPlan.v, ExamplesTv.v, ExamplesTv3.v *)
 From Coq Require Import PeanoNat Lia.
@@ -44,7 +46,7 @@ From Gv Require Import lib.Bytes lib.Json lib.Gql lib.Exec
      C01.ProofsBase C01.ProofsFuel C01.ProofsSplit C01.ProofsSim C01.ProofsJoin C01.ProofsOverlap C01.ProofsTwoStep
      C01.ProofsCtxBase C01.ProofsCtx C01.ProofsTwoStepWf C01.ProofsDedup C01.ProofsViol C01.ProofsListHop C01.ProofsListHopWf C01.ProofsListHopTn C01.ProofsAbstractHop C01.ProofsPlanAlg C01.ProofsPlan C01.ProofsPlanOk
      C01.ProofsTvStatic C01.ProofsTvDefs C01.ProofsTvHidden C01.ProofsPlanGen C01.ProofsPlan2 C01.ProofsPlan2Link C01.ProofsPlan2Root C01.ProofsTvOrder C01.ProofsTvMain
-     C01.ProofsFuelSuff C01.ProofsPlan3 C01.ProofsPlan3Keys C01.ProofsPlan3Fetch C01.ProofsPlan3Field C01.ProofsPlan3Step C01.ProofsPlan3Main.
+     C01.ProofsFuelSuff C01.ProofsNKeyDefs C01.ProofsPlan3 C01.ProofsPlan3Keys C01.ProofsPlan3Fetch C01.ProofsPlan3Field C01.ProofsPlan3Step C01.ProofsPlan3Main.
 Open Scope N_scope.
 
 (* ---- E1: a result without XOutOfFuel does not change when more fuel is supplied ---- *)
@@ -1020,9 +1022,9 @@ Theorem plan_tree_fetch_one :
   reqs_covered e sel ks = true ->
   (fuel_bound sc sel + 10 <= f2)%nat ->
   let X := exec_sels sc U [] (pvars vdsM supM) Mono f2 T {| ov_ent := e; ov_repr := None |} sel [] in
-  fst (fetch_one U sc subs [] vdsM supM f2 tn T sel m si ks) = fst X /\
-  (snd (fetch_one U sc subs [] vdsM supM f2 tn T sel m si ks) = [] <-> snd X = []).
-Proof. exact ProofsPlan3Fetch.fetch_one_spec. Qed.
+  fst (fetch_one U sc subs [] vdsM supM f2 tn T sel m si ks []) = fst X /\
+  (snd (fetch_one U sc subs [] vdsM supM f2 tn T sel m si ks []) = [] <-> snd X = []).
+Proof. exact ProofsPlan3Fetch.fetch_one_spec_flat. Qed.
 Print Assumptions plan_tree_fetch_one.
 
 (* 6c. the induction over plan trees, one level each: [PS_at k] = every statically accepted plan tree of depth <= k,
@@ -1034,33 +1036,35 @@ Print Assumptions plan_tree_fetch_one.
 Theorem plan_tree_field_step :
   forall (U : universe) (sc : schema) (subs : list schema) (vdsM : list vardef)
          (supM : list (bytes * json)) (f2 kq : nat) (tn : bool) (decls : list (name * list name))
-         (rdecls : list rdecl) (ab : bool) (k : nat),
-  PS_at U sc subs vdsM supM f2 kq tn decls rdecls ab k ->
-  FL_at U sc subs vdsM supM f2 kq tn decls rdecls ab (S k).
+         (rdecls : list rdecl) (ndecls : list (name * (list name * nkspec))) (ab : bool) (k : nat),
+  PS_at U sc subs vdsM supM f2 kq tn decls rdecls ndecls ab k ->
+  FL_at U sc subs vdsM supM f2 kq tn decls rdecls ndecls ab (S k).
 Proof. exact ProofsPlan3Field.FL_step. Qed.
 Print Assumptions plan_tree_field_step.
 
 Theorem plan_tree_abstract_field_step :
   forall (U : universe) (sc : schema) (subs : list schema) (vdsM : list vardef)
          (supM : list (bytes * json)) (f2 kq : nat) (tn : bool) (decls : list (name * list name))
-         (rdecls : list rdecl) (ab : bool) (k : nat),
+         (rdecls : list rdecl) (ndecls : list (name * (list name * nkspec))) (ab : bool) (k : nat),
   (ab = true -> types_ok_b sc U = true) ->
-  PS_at U sc subs vdsM supM f2 kq tn decls rdecls ab k ->
-  FA_at U sc subs vdsM supM f2 kq tn decls rdecls ab (S k).
+  PS_at U sc subs vdsM supM f2 kq tn decls rdecls ndecls ab k ->
+  FA_at U sc subs vdsM supM f2 kq tn decls rdecls ndecls ab (S k).
 Proof. exact ProofsPlan3Field.FA_step. Qed.
 Print Assumptions plan_tree_abstract_field_step.
 
 Theorem plan_tree_position_step :
   forall (U : universe) (sc : schema) (subs : list schema) (vdsM : list vardef)
          (supM : list (bytes * json)) (eQ : entity) (f2 kq : nat) (tn : bool)
-         (decls : list (name * list name)) (rdecls : list rdecl) (ab : bool) (k : nat),
+         (decls : list (name * list name)) (rdecls : list rdecl) (ndecls : list (name * (list name * nkspec))) (ab : bool) (k : nat),
   find_entity U (s_query sc) [] = Some eQ ->
   forallb (fun vd : vardef => not_repr (vd_name vd)) vdsM = true ->
   forallb (config_wf_b sc) subs = true ->
   univ3_contract_b sc subs decls rdecls U = true ->
-  FL_at U sc subs vdsM supM f2 kq tn decls rdecls ab k ->
-  FA_at U sc subs vdsM supM f2 kq tn decls rdecls ab k ->
-  PS_at U sc subs vdsM supM f2 kq tn decls rdecls ab (S k).
+  nkey_contract_b sc ndecls U = true ->
+  ndecls_wf_b ndecls = true ->
+  FL_at U sc subs vdsM supM f2 kq tn decls rdecls ndecls ab k ->
+  FA_at U sc subs vdsM supM f2 kq tn decls rdecls ndecls ab k ->
+  PS_at U sc subs vdsM supM f2 kq tn decls rdecls ndecls ab (S k).
 Proof. exact ProofsPlan3Step.PS_step. Qed.
 Print Assumptions plan_tree_position_step.
 
@@ -1131,3 +1135,64 @@ Theorem plan_tree_abstract_valid_all_universes_execute :
            (sres_of_response (execute F sc U Mono (client_doc3 vdsM [] ds) None (JObj supM))).
 Proof. exact ProofsPlan3Main.tv4_sound_execute. Qed.
 Print Assumptions plan_tree_abstract_valid_all_universes_execute.
+
+(* 6f. KEYS WITH ONE LEVEL OF NESTING ( @key(fields: "id nk { code }") ): a representation field is a leaf or a nested field
+   (name, inner leaves); the source is asked  nk { inner }  and the representation carries the object of the inner leaves
+   ([repr_of_n] / [repr_from_n], ProofsNKeyDefs.v).  tv5_static_b ([ndecls]: per type the nested key declared for it) accepts  ->
+   for EVERY universe of univ5_contract_b (= univ4_contract_b and: the declared nested key identifies the entities of its type,
+   its leaf part are plain non-null leaves, its nested part references to existing entities with plain non-null inner leaves)
+   gateway model == monolith.  No no_oof hypothesis. *)
+Theorem plan_tree_fetch_one_repr :
+  forall (U : universe) (sc : schema) (subs : list schema) (vdsM : list vardef)
+         (supM : list (bytes * json)) (eQ : entity) (f2 : nat) (tn : bool),
+  find_entity U (s_query sc) [] = Some eQ ->
+  forallb (fun vd : vardef => not_repr (vd_name vd)) vdsM = true ->
+  forall (T : name) (sel : list selection) (m : list (bytes * json)) (si : nat)
+         (ks : list name) (kn : nkspec) (r : json) (e : entity) (kq : nat),
+  In e U ->
+  en_type e = T ->
+  config_wf_b sc (sub_at sc subs si) = true ->
+  univ_ok_b (sub_at sc subs si) U = true ->
+  plain_sels sel ->
+  sels_nospread sel = true ->
+  sels_noent sel = true ->
+  req_ok_b (sub_at sc subs si) [] (pvars vdsM supM) not_repr kq T sel = true ->
+  repr_from_n ks kn m = r ->
+  find_by_repr U r = Some e ->
+  (forall s : selection, In s sel -> forall x : name, In x (fval_reqs (ent_fval e (sel_fname s))) ->
+                         req_read Sub (Some r) e x = req_read Mono None e x) ->
+  (fuel_bound sc sel + 10 <= f2)%nat ->
+  let X := exec_sels sc U [] (pvars vdsM supM) Mono f2 T {| ov_ent := e; ov_repr := None |} sel [] in
+  fst (fetch_one U sc subs [] vdsM supM f2 tn T sel m si ks kn) = fst X /\
+  (snd (fetch_one U sc subs [] vdsM supM f2 tn T sel m si ks kn) = [] <-> snd X = []).
+Proof. exact ProofsPlan3Fetch.fetch_one_spec. Qed.
+Print Assumptions plan_tree_fetch_one_repr.
+
+Theorem plan_tree_nested_keys_valid_all_universes :
+  forall (sc : schema) (subs : list schema) (vdsM : list vardef) (supM : list (bytes * json))
+         (kq : nat) (decls : list (name * list name)) (rdecls : list rdecl) (tn : bool)
+         (ndecls : list (name * (list name * nkspec))) (k : nat) (ds : list rfield3),
+  tv5_static_b sc subs [] vdsM supM kq decls rdecls ndecls k ds = true ->
+  forall (U : universe) (eQ : entity),
+  univ5_contract_b sc subs decls rdecls ndecls U = true ->
+  find_entity U (s_query sc) [] = Some eQ ->
+  forall F : nat,
+  (ds_need sc ds <= F)%nat ->
+  sres_weq (gateway3 U sc subs [] vdsM supM eQ F F tn k ds) (mono_client3 U sc [] vdsM supM eQ F ds).
+Proof. exact ProofsPlan3Main.tv5_sound. Qed.
+Print Assumptions plan_tree_nested_keys_valid_all_universes.
+
+Theorem plan_tree_nested_keys_valid_all_universes_execute :
+  forall (sc : schema) (subs : list schema) (vdsM : list vardef) (supM : list (bytes * json))
+         (kq : nat) (decls : list (name * list name)) (rdecls : list rdecl) (tn : bool)
+         (ndecls : list (name * (list name * nkspec))) (k : nat) (ds : list rfield3),
+  tv5_static_b sc subs [] vdsM supM kq decls rdecls ndecls k ds = true ->
+  forall (U : universe) (eQ : entity),
+  univ5_contract_b sc subs decls rdecls ndecls U = true ->
+  find_entity U (s_query sc) [] = Some eQ ->
+  forall F : nat,
+  (ds_need sc ds <= F)%nat ->
+  sres_weq (gateway3 U sc subs [] vdsM supM eQ F F tn k ds)
+           (sres_of_response (execute F sc U Mono (client_doc3 vdsM [] ds) None (JObj supM))).
+Proof. exact ProofsPlan3Main.tv5_sound_execute. Qed.
+Print Assumptions plan_tree_nested_keys_valid_all_universes_execute.
